@@ -247,6 +247,12 @@ func (s *Server) serve(id int, conn net.Conn) {
 			s.mu.Unlock()
 			return
 		}
+		if len(argv) == 0 { // an empty command on the wire: log it, answer like Redis would not (nothing)
+			s.mu.Lock()
+			s.log(Event{Conn: id, Kind: "c", Argv: []string{}})
+			s.mu.Unlock()
+			continue
+		}
 		name := strings.ToUpper(argv[0])
 		if debugLog {
 			fmt.Fprintf(os.Stderr, "RAW conn=%d %v\n", id, argv)
